@@ -38,10 +38,32 @@ Proof. intros. rewrite <- (Rpower_1 q) at 3 by assumption. rewrite <- Rpower_plu
 
 (* side conditions: conjunctions of hypotheses, positivity of square roots, non-nullity of positive numbers *)
 Ltac nz := repeat split; try assumption; try (apply sqrt_lt_R0; assumption); try (apply Rgt_not_eq; assumption);
-           try (apply Rgt_not_eq; apply sqrt_lt_R0; assumption); try lra.
+           try (apply Rgt_not_eq; apply sqrt_lt_R0; assumption); try lra; try (timeout 20 nra).
 
 (* |x| >= c > 0 (a pivot test that did not fire) gives x <> 0 *)
 Lemma not_abs_lt_nz x c : 0 < c -> ~ (Rabs x < c) -> x <> 0.
 Proof. intros Hc H Hx. apply H. rewrite Hx, Rabs_R0. exact Hc. Qed.
 Lemma tiny_pos : 0 < 22250738585072014 / 10 ^ 322.
 Proof. apply Rdiv_lt_0_compat; [ lra | apply pow_lt; lra ]. Qed.
+
+(* same for logarithms; powers u^e are handled as exp (e * ln u) with u^e = u^(e-1) * u *)
+Ltac unify_ln a tac :=
+  repeat match goal with |- context[ln ?b] =>
+    lazymatch b with a => fail | _ => replace b with a by tac end end.
+Lemma exp_ln_succ u e : 0 < u -> exp (e * ln u) = exp ((e - 1) * ln u) * u.
+Proof. intros H. rewrite <- (exp_ln u H) at 3. rewrite <- exp_plus. f_equal. ring. Qed.
+
+(* a side condition  num(e) <> 0  left by [field], from a hypothesis 0 < e *)
+Ltac nzpos :=
+  match goal with
+  | H : 0 < ?e |- _ <> 0 =>
+    let Hz := fresh "Hz" in
+    intro Hz; absurd (e = 0); [ apply Rgt_not_eq; exact H | field_simplify_eq; [ lra | nz ] ]
+  end.
+Ltac nzne :=
+  match goal with
+  | H : ?e <> 0 |- _ <> 0 =>
+    let Hz := fresh "Hz" in
+    intro Hz; apply H; field_simplify_eq; [ lra | nz ]
+  end.
+Ltac nzz := nz; try nzpos; try nzne.
